@@ -59,6 +59,9 @@ typedef struct {
     int invalid_arg;          /* an argument is invalid (NULL %s, bad %lc): failure is allowed */
     int one_dir;
     char rc[64];              /* root-cause class of a possible text deviation (coarse key) */
+    char reffmt[24];          /* %p: the reference text comes from this libc format instead (the library renders pointers as 2*sizeof(void*) upper-case hex digits) */
+    int utf8;                 /* run (library call and reference) under LC_ALL=C.UTF-8 */
+    int ref_fails;            /* C printf itself fails (argument not representable in the locale): the library must fail as well, leaving nothing behind */
 } fcase;
 
 static long long SENT[4];   /* %n sentinels */
@@ -146,6 +149,66 @@ static void str_case(long k, fcase *c) {
         put_dir(c->fmt, sizeof c->fmt, CF[fi], SW[wi], -1, "", 'c', c, 0, 0); add_g(c, CV[ci]);
         snprintf(c->cls, sizeof c->cls, "%%c|flags='%s'|%s|%s", CF[fi], wcls(SW[wi]), CV[ci] == 0 ? "nul" : CV[ci] > 127 ? "highbit" : "ascii");
         if (CV[ci] == 0) c->invalid_arg = 2;   /* a NUL character inside a string result: comparison by length, see oracle */
+    }
+}
+
+/* directives the lattices above do not contain: %ls (wide string through wcstombs), %lc, %b / %#b, %p */
+static const wchar_t *WSTRS[] = {L"", L"a", L"hello", L"0123456789abcdefghijklmnopqrstuvwxyzABCD", L"grüß", L"€€€€€€€"};
+static long n_spc_cases(void) { return 6L * 5 * 3 * 2 + 4 * 3 * 2 * 2 + 2 * 15 * 3 * 3 + 4 + 6; }
+static void spc_case(long k, fcase *c) {
+    static const int SW[] = {-1, 3, 12}; static const int SP[] = {-1, 0, 1, 3, 70}; static const char *SF[] = {"", "-"};
+    memset(c, 0, sizeof *c); c->strarg = -1; c->one_dir = 1;
+    if (k < 6L * 5 * 3 * 2) {
+        int si = (int)(k % 6); k /= 6; int pi = (int)(k % 5); k /= 5; int wi = (int)(k % 3); k /= 3; int fi = (int)(k % 2);
+        const wchar_t *ws = WSTRS[si]; size_t sl = wcslen(ws); c->utf8 = si >= 4;
+        /* "%.Nls" of an ASCII wide string: N bytes are N elements, so an N-element object without terminator is a valid argument */
+        int unterm = SP[pi] >= 0 && sl >= (size_t)SP[pi] && !c->utf8;
+        size_t objel = unterm ? (size_t)SP[pi] : sl + 1;
+        g_strobj = place_end(1, objel * sizeof(wchar_t)); memcpy(g_strobj, ws, (objel <= sl ? objel : sl) * sizeof(wchar_t)); if (!unterm) ((wchar_t *)g_strobj)[sl] = 0;
+        c->str_unterm = unterm; c->str_prec = SP[pi] >= 0 ? (size_t)SP[pi] : (size_t)-1; c->str_len = unterm ? (size_t)SP[pi] : sl;
+        put_dir(c->fmt, sizeof c->fmt, SF[fi], SW[wi], SP[pi], "l", 's', c, 0, 0);
+        c->strarg = c->na; add_g(c, (long long)(intptr_t)g_strobj);
+        snprintf(c->cls, sizeof c->cls, "%%ls|flags='%s'|%s|%s|%s", SF[fi], wcls(SW[wi]), SP[pi] < 0 ? "p-none" : SP[pi] == 0 ? "p0" : "p-set", sl == 0 ? "empty" : c->utf8 ? "non-ascii" : sl > 20 ? "long" : "short");
+        snprintf(c->rc, sizeof c->rc, "%%ls|%s|%s", c->utf8 ? "non-ascii" : "ascii", SP[pi] < 0 ? "p-none" : SP[pi] == 0 ? "p0" : "p-set");
+        return;
+    }
+    k -= 6L * 5 * 3 * 2;
+    if (k < 4 * 3 * 2 * 2) {
+        static const int CV[] = {'A', 'z', 0xE9, 0x20AC};
+        int ci = (int)(k % 4); k /= 4; int wi = (int)(k % 3); k /= 3; int fi = (int)(k % 2); k /= 2; int ctx = (int)(k % 2);
+        if (ctx) sb_add(c->fmt, sizeof c->fmt, "ab");
+        put_dir(c->fmt, sizeof c->fmt, SF[fi], SW[wi], -1, "l", 'c', c, 0, 0); add_g(c, CV[ci]);
+        if (ctx) { sb_add(c->fmt, sizeof c->fmt, "cd"); c->one_dir = 0; }
+        c->utf8 = CV[ci] > 127;
+        snprintf(c->cls, sizeof c->cls, "%%lc|flags='%s'|%s|%s|%s", SF[fi], wcls(SW[wi]), CV[ci] > 127 ? "non-ascii" : "ascii", ctx ? "inside-text" : "alone");
+        snprintf(c->rc, sizeof c->rc, "%%lc|%s|%s", CV[ci] > 127 ? "non-ascii" : "ascii", ctx ? "inside-text" : "alone");
+        return;
+    }
+    k -= 4 * 3 * 2 * 2;
+    if (k < 2 * 15 * 3 * 3) {
+        static const char *BF[] = {"", "#", "#0"}; static const int BW[] = {-1, 5, 40}; static const char *BL[] = {"", "ll"};
+        int li = (int)(k % 2); k /= 2; int vi = (int)(k % 15); k /= 15; int wi = (int)(k % 3); k /= 3; int fi = (int)(k % 3);
+        long long v = li ? IVALS[vi] : (long long)(unsigned int)IVALS[vi];
+        put_dir(c->fmt, sizeof c->fmt, BF[fi], BW[wi], -1, BL[li], 'b', c, 0, 0); add_g(c, v);
+        snprintf(c->cls, sizeof c->cls, "%%%sb|flags='%s'|%s|%s", BL[li], BF[fi], wcls(BW[wi]), vcls(IVALS[vi]));
+        snprintf(c->rc, sizeof c->rc, "%%b|flags='%s'", BF[fi]);
+        return;
+    }
+    k -= 2 * 15 * 3 * 3;
+    if (k >= 4) {   /* wide arguments the "C" locale cannot represent: C printf fails, so must the library, and nothing may stay in dest */
+        static const wchar_t bad[] = L"ab\x100" L"cd"; k -= 4; int ctx = (int)(k % 3), islc = (int)(k / 3);
+        static const char *CT[] = {"%s", "x=%s;", "%%d %s"}; char dir[8]; snprintf(dir, sizeof dir, islc ? "%%lc" : "%%ls");
+        if (ctx == 2) add_g(c, 7);
+        snprintf(c->fmt, sizeof c->fmt, CT[ctx], dir); c->one_dir = ctx == 0;
+        if (islc) add_g(c, 0x100); else { g_strobj = place_end(1, sizeof bad); memcpy(g_strobj, bad, sizeof bad); c->strarg = c->na; add_g(c, (long long)(intptr_t)g_strobj); c->str_len = 5; c->str_prec = (size_t)-1; }
+        snprintf(c->cls, sizeof c->cls, "%s|not-representable|%s", dir, ctx == 0 ? "alone" : ctx == 1 ? "inside-text" : "after-%d"); snprintf(c->rc, sizeof c->rc, "%s|not-representable", dir);
+        return;
+    }
+    {   static int obj; void *pv[] = {&obj, NULL, (void *)(uintptr_t)0xffffffffffffffffull, (void *)(uintptr_t)0x1000};
+        if (k & 1) { sb_add(c->fmt, sizeof c->fmt, "at %%p!"); c->one_dir = 0; } else sb_add(c->fmt, sizeof c->fmt, "%%p");
+        add_g(c, (long long)(intptr_t)pv[k]);
+        snprintf(c->reffmt, sizeof c->reffmt, (k & 1) ? "at %%0%dllX!" : "%%0%dllX", (int)(2 * sizeof(void *)));
+        snprintf(c->cls, sizeof c->cls, "%%p|%s", k == 1 ? "null" : "non-null"); snprintf(c->rc, sizeof c->rc, "%%p");
     }
 }
 
@@ -243,7 +306,8 @@ static void run_case(fcase *c, long idx) {
     char ref[600], obs[420], buf2[600]; int reflen;
     K[K_CASES]++;
     /* ---- reference text from libc */
-    if (!c->has_n) { P_dest = ref; P_n = sizeof ref; P_fmt = c->fmt; call_target(99, c->a, c->na, c->code); reflen = P_ret; if (reflen < 0 || reflen >= (int)sizeof ref) return; }
+    if (c->utf8) setlocale(LC_ALL, "C.UTF-8");
+    if (!c->has_n) { P_dest = ref; P_n = sizeof ref; P_fmt = c->reffmt[0] ? c->reffmt : c->fmt; call_target(99, c->a, c->na, c->code); reflen = P_ret; if (reflen < 0 && strstr(c->cls, "not-representable")) { c->ref_fails = 1; reflen = 24; ref[0] = 0; } else if (reflen < 0 || reflen >= (int)sizeof ref) { if (c->utf8) setlocale(LC_ALL, "C"); return; } }
     else { reflen = 8; ref[0] = 0; }
     size_t need = (size_t)reflen + 1;
     /* ---- buffer targets over a dmax sweep */
@@ -283,8 +347,8 @@ static void run_case(fcase *c, long idx) {
         /* ---- C03 / C04 / C08 */
         size_t dl = strnlen((char *)dest, dmax);
         if (dl == dmax) { snprintf(obs, sizeof obs, "no NUL in dest[0..%zu) after return %d", dmax, ret); vio("C03", c, t, idx, dmax, "unterminated-dest", fitc, obs); }
-        if (ret < 0) {
-            if (dest[0]) { snprintf(obs, sizeof obs, "returned %d but dest[0]=%#x", ret, dest[0]); vio("C04", c, t, idx, dmax, "dest[0]-not-zero", errname(-ret), obs); }
+        if (ret < 0 || hc > 0) {   /* a reported violation is a failed call whatever number comes back */
+            if (dest[0]) { snprintf(obs, sizeof obs, "returned %d but dest[0]=%#x", ret, dest[0]); vio("C04", c, t, idx, dmax, "dest[0]-not-zero", ret < 0 ? errname(-ret) : "handler-invoked-but-count-returned", obs); }
             else for (size_t i = 0; i < dmax; i++) if (dest[i] && (g_noslack ? dest[i] != (uint8_t)(0x61 + i % 26) : 1)) { snprintf(obs, sizeof obs, "returned %d but dest[%zu]=%#x holds formatted output", ret, i, dest[i]); vio("C04", c, t, idx, dmax, g_noslack ? "partial-result-visible" : "not-all-zero-after-failure", errname(-ret), obs); break; }
         } else if (!g_noslack && dl < dmax) {
             /* a NUL printed through %c is part of the text: the slack starts behind the returned count */
@@ -294,6 +358,7 @@ static void run_case(fcase *c, long idx) {
         /* ---- C11 */
         K[K_C11]++;
         if (strcmp(g_prop, "C09")) { char b[200]; snprintf(b, sizeof b, "%s;%s;%s;%d", TN[t], c->cls, fitc, ret < 0 ? -1 : 0); distinct_add(hash_str(b)); }
+        if (c->ref_fails) { if (ret >= 0) { snprintf(obs, sizeof obs, "returned %d and stored '%.40s' although the wide argument has no representation in the locale (C printf fails)", ret, (char *)dest); vio("C11", c, t, idx, dmax, "succeeds-although-printf-fails", c->rc, obs); } continue; }
         if (c->invalid_arg == 2) { if (ret >= 0 && ret != reflen && fits) { snprintf(obs, sizeof obs, "returned %d, libc counts %d", ret, reflen); vio("C11", c, t, idx, dmax, "count-differs", c->cls, obs); } continue; }
         if (fits) {
             if (ret < 0) { snprintf(obs, sizeof obs, "failed with %s although libc's text '%.60s' (%d chars) fits in dmax=%zu", errname(-ret), ref, reflen, dmax); vio("C11", c, t, idx, dmax, "fails-although-text-fits", c->rc[0] ? c->rc : c->cls, obs); }
@@ -329,12 +394,14 @@ static void run_case(fcase *c, long idx) {
         }
         K[K_STREAM]++; K[K_C11]++;
         if (c->invalid_arg == 2) continue;
+        if (c->ref_fails) { if (ret >= 0) { snprintf(obs, sizeof obs, "returned %d although the wide argument has no representation in the locale", ret); vio("C11", c, t, idx, 0, "succeeds-although-printf-fails", c->rc, obs); } continue; }
         if (ret < 0) { snprintf(obs, sizeof obs, "failed with %d although every argument is valid", ret); vio("C11", c, t, idx, 0, "stream-variant-fails", c->rc[0] ? c->rc : c->cls, obs); }
         else { int same = (n == (size_t)reflen && !memcmp(buf2, ref, n)); char why[200] = "";
             if (!same && c->is_float && n < sizeof buf2 && float_ok(c, buf2, ref, why, sizeof why)) same = 1;
             if (!same) { snprintf(obs, sizeof obs, "emitted '%.80s' (%zu bytes), C printf gives '%.80s'", buf2, n, ref); text_vio(c, t, idx, 0, why, obs); }
             else if (ret != (int)n) { snprintf(obs, sizeof obs, "returned %d but emitted %zu bytes", ret, n); vio("C11", c, t, idx, 0, "returned-count-differs-from-emitted", c->rc[0] ? c->rc : c->cls, obs); } }
     }
+    if (c->utf8) setlocale(LC_ALL, "C");
     if (g_verbose) { wit(c, -1, idx, 0, ref); fprintf(g_out, "%s\n", g_wit); }
     if (g_samples < 6 && idx % 2003 == (long)(g_seed % 2003)) { wit(c, -1, idx, 0, ref); emit_sample(g_wit); g_samples++; }
 }
@@ -345,6 +412,7 @@ static void gen(void) {
     for (long k = 0; k < ni; k += 1) { long my = idx++; if (!g_tier && (my % stride_i) != (long)(g_seed % stride_i)) continue; if (g_only_idx >= 0 ? my != g_only_idx : (my % g_nw != g_wid || my < g_skip_below)) continue; int_case(k, &c); g_shm->cur = my; run_case(&c, my); }
     for (long k = 0; k < nf; k++) { long my = idx++; if (!g_tier && (my % stride_f) != (long)(g_seed % stride_f)) continue; if (g_only_idx >= 0 ? my != g_only_idx : (my % g_nw != g_wid || my < g_skip_below)) continue; flt_case(k, &c); g_shm->cur = my; run_case(&c, my); }
     for (long k = 0; k < ns; k++) { long my = idx++; if (g_only_idx >= 0 ? my != g_only_idx : (my % g_nw != g_wid || my < g_skip_below)) continue; str_case(k, &c); g_shm->cur = my; run_case(&c, my); }
+    for (long k = 0; k < n_spc_cases(); k++) { long my = idx++; if (g_only_idx >= 0 ? my != g_only_idx : (my % g_nw != g_wid || my < g_skip_below)) continue; spc_case(k, &c); g_shm->cur = my; run_case(&c, my); }
     long nr = g_tier ? 60000 : 6000;
     for (long k = 0; k < nr; k++) { long my = idx++; if (g_only_idx >= 0 ? my != g_only_idx : (my % g_nw != g_wid || my < g_skip_below)) continue; rnd_case(g_seed * 1000003ull + (uint64_t)k, &c, (k % 3) == 0); g_shm->cur = my; run_case(&c, my); }
     /* history independence: re-issue recorded calls after unrelated calls and compare bytes */
